@@ -1,4 +1,94 @@
-/- oracle_c11 — placeholder driver (replaced when the C11 model is added). -/
+/-
+  oracle_c11 — line-protocol driver for the C11 models (Model/Conc.lean).
+    facts                                  -> ok <allDisciplined:0|1> <protoFacts as expected:0|1> <n functions>
+    mon <events>                           -> ok <n> | bad <index> <what>      events: one letter each
+                                              b save:begin  f save:finito  m mutation begins  e mutation ends
+                                              c file created  d file goroutine done  o other
+    snap <mprog> <xprog> <cap> <labels>    -> ok <visible> <good:0|1> <check:0|1> <final:0|1> <hasStep:0|1>
+                                              mprog letters: c commit i idle a abort h hurry s save x close ("-" empty)
+                                              xprog letters: h hurry a abort
+                                              labels: m x s (saver step) 1..9 (saver begins with k chunks) A H f E
+    fan <cloned:0|1> <txs> <bad> <labels>  -> ok <early|-> <errcnt> <ref-early|-> <ref-errcnt> | run (not finished)
+                                              txs: nin.nout.early.a_v_a_v… separated by ','   bad: t_j separated by ',' or '-'
+                                              labels: M (main) or worker index digits separated by ','
+-/
+import GocoinV.Model.Conc
 import GocoinV.Base.Proto
-open GocoinV
-def main : IO Unit := Proto.serve () (fun _ _ => ((), "bad-op"))
+open GocoinV GocoinV.Conc
+
+def monEv : Char → Option Mon.MEv
+  | 'b' => some .saveBegin | 'f' => some .saveFinito | 'm' => some .mutBegin | 'e' => some .mutEnd
+  | 'c' => some .fileCreated | 'd' => some .fileDone | 'o' => some .other | _ => none
+
+def mop : Char → Option Snap.MOp
+  | 'c' => some .commit | 'i' => some .idle | 'a' => some .abort | 'h' => some .hurry | 's' => some .save | 'x' => some .close | _ => none
+
+def xop : Char → Option Snap.XOp
+  | 'h' => some .hurry | 'a' => some .abort | _ => none
+
+def lab : Char → Option Snap.Lab
+  | 'm' => some .m | 'x' => some .x | 's' => some .sStep | 'A' => some .sAbort | 'H' => some .sHurry
+  | 'f' => some .fStep | 'E' => some .fExit
+  | c => if c.isDigit && c != '0' then some (.sBegin (c.toNat - '0'.toNat)) else none
+
+def dash (s : String) : String := if s == "-" then "" else s
+
+def parseNats (s : String) (sep : Char) : Option (List Nat) :=
+  if s == "-" || s == "" then some [] else (s.splitOn (String.singleton sep)).mapM (·.toNat?)
+
+def pairs : List Nat → Option (List (Nat × Nat))
+  | [] => some []
+  | a :: b :: r => (pairs r).map ((a, b) :: ·)
+  | _ => none
+
+def parseTx (s : String) : Option Fan.Tx :=
+  match s.splitOn "." with
+  | [nin, nout, early, sp] => do
+      let nin ← nin.toNat?
+      let nout ← nout.toNat?
+      let e ← early.toNat?
+      let l ← parseNats sp '_'
+      let ps ← pairs l
+      some { nin := nin, nout := nout, early := e == 1, spends := ps }
+  | _ => none
+
+def optStr : Option Nat → String
+  | some n => toString n | none => "-"
+
+def step (_ : Unit) (toks : List String) : Unit × String :=
+  let bad := ((), "bad-op")
+  match toks with
+  | ["facts"] =>
+    ((), s!"ok {Proto.boolStr allDisciplined} {Proto.boolStr (protoFacts == protoFactsOK)} {policy.length}")
+  | ["mon", evs] =>
+    match (dash evs).toList.mapM monEv with
+    | some es =>
+      let m := Mon.runM es
+      match m.bad with
+      | [] => ((), s!"ok {m.n}")
+      | (i, w) :: _ => ((), s!"bad {i} {w.replace " " "_"}")
+    | none => bad
+  | ["snap", mp, xp, cap, ls] =>
+    match (dash mp).toList.mapM mop, (dash xp).toList.mapM xop, cap.toNat?, (dash ls).toList.mapM lab with
+    | some mp, some xp, some cap, some ls =>
+      let st := Snap.run (Snap.init mp xp cap) ls
+      ((), s!"ok {st.visible.length} {Proto.boolStr (st.visible.all Snap.Visible.good)} {Proto.boolStr (Snap.check st)} {Proto.boolStr (Snap.final st)} {Proto.boolStr (Snap.hasStep st)}")
+    | _, _, _, _ => bad
+  | ["fan", cl, txs, badl, ls] =>
+    let txl := if txs == "-" then some [] else (txs.splitOn ",").mapM parseTx
+    let bl := if badl == "-" then some [] else (badl.splitOn ",").mapM (fun p => match (p.splitOn "_").mapM (·.toNat?) with
+      | some [a, b] => some (a, b) | _ => none)
+    let labs := if ls == "-" then some [] else (ls.splitOn ",").mapM (fun l => if l == "M" then some Fan.Lab.main else l.toNat?.map Fan.Lab.worker)
+    match txl, bl, labs with
+    | some txl, some bl, some labs =>
+      if cl != "0" && cl != "1" then bad else
+      let f : Fan.Verify := fun t j view => !(bl.contains (t, j)) && view.all id
+      let st := Fan.run f (Fan.init txl (cl == "1")) labs
+      let rf := Fan.reference f txl
+      match st.verdict with
+      | some (e, n) => ((), s!"ok {optStr e} {n} {optStr rf.1} {rf.2}")
+      | none => ((), s!"run {optStr rf.1} {rf.2}")
+    | _, _, _ => bad
+  | _ => bad
+
+def main : IO Unit := Proto.serve () step
